@@ -1,7 +1,10 @@
 package fr
 
 import (
+	"crypto/sha256"
+	"encoding/hex"
 	"fmt"
+	"sort"
 	"runtime/debug"
 	"strings"
 
@@ -31,6 +34,10 @@ type Extra struct {
 	Nx         int    `json:"nx"`
 	ValidateOk bool   `json:"validate_ok"`
 	Note       string `json:"note,omitempty"`
+	// C14: digests of the complete ordered event stream of the step (bank and module events, all
+	// attributes) and of the module's raw store plus the account numbers of the model accounts
+	EvHash string `json:"evh"`
+	StHash string `json:"sth"`
 }
 
 // Step is one line of the recorded trace.
@@ -43,8 +50,9 @@ type Step struct {
 	Xfers []Xfer          `json:"xfers"`
 	Hooks []HookCall      `json:"hooks"`
 	Extra Extra           `json:"extra"`
-	Ev    []EventJ        `json:"ev,omitempty"`
-	Raw   map[string]any  `json:"-"`
+	Ev    []EventJ        `json:"ev"`
+	Rep   int             `json:"rep"` // replica number (C14), 1-based
+	Len   int             `json:"len"` // lines per replica
 }
 
 type EventJ struct {
@@ -180,7 +188,7 @@ func (e *Env) deliverLocal(ctx sdk.Context, msg sdk.Msg) error {
 
 // Exec executes one input on the behaviour's committed context and returns the trace line.
 func (e *Env) Exec(a Action, raw map[string]any) (st Step) {
-	st = Step{Act: raw, Xfers: []Xfer{}, Hooks: []HookCall{}, Extra: Extra{ValidateOk: true}}
+	st = Step{Act: raw, Xfers: []Xfer{}, Hooks: []HookCall{}, Extra: Extra{ValidateOk: true}, Ev: []EventJ{}, Rep: 1}
 	em := sdk.NewEventManager()
 	ctx := e.Ctx.WithEventManager(em)
 	e.HookLog = nil
@@ -262,6 +270,10 @@ func (e *Env) Exec(a Action, raw map[string]any) (st Step) {
 	if st.Res.Ok {
 		st.Xfers = e.xfers(em.Events())
 		st.Ev = moduleEvents(em.Events())
+	}
+	if e.Digests {
+		st.Extra.EvHash = eventsDigest(em.Events())
+		st.Extra.StHash = e.storeDigest(e.Ctx)
 	}
 	st.Hooks = append(st.Hooks, e.HookLog...)
 	s, perr := e.Project(e.Ctx)
@@ -376,3 +388,53 @@ func (e *Env) genesisRoundTrip(ctx sdk.Context, st *Step) error {
 }
 
 var _ = storetypes.StoreKey(nil)
+
+func eventsDigest(evs sdk.Events) string {
+	h := sha256.New()
+	for _, ev := range evs {
+		h.Write([]byte(ev.Type))
+		h.Write([]byte{0})
+		for _, at := range ev.Attributes {
+			h.Write([]byte(at.Key))
+			h.Write([]byte{1})
+			h.Write([]byte(at.Value))
+			h.Write([]byte{2})
+		}
+	}
+	return hex.EncodeToString(h.Sum(nil))[:16]
+}
+
+// storeDigest hashes the module's raw key-value store and the account numbers of every
+// model account (accounts are created on first receipt, so creation order is observable).
+func (e *Env) storeDigest(ctx sdk.Context) string {
+	h := sha256.New()
+	store := ctx.KVStore(e.B.App.GetKey(frtypes.StoreKey))
+	it := store.Iterator(nil, nil)
+	for ; it.Valid(); it.Next() {
+		h.Write(it.Key())
+		h.Write([]byte{0})
+		h.Write(it.Value())
+		h.Write([]byte{1})
+	}
+	it.Close()
+	names := make([]string, 0, len(e.Name))
+	for addr := range e.Name {
+		names = append(names, addr)
+	}
+	sort.Strings(names)
+	for _, a := range names {
+		addr, err := sdk.AccAddressFromBech32(a)
+		if err != nil {
+			continue
+		}
+		acc := e.B.App.AccountKeeper.GetAccount(ctx, addr)
+		if acc == nil {
+			h.Write([]byte("-"))
+		} else {
+			// account numbers relative to the first model user, so that replicas started from
+			// different global counters stay comparable
+			h.Write([]byte(fmt.Sprintf("%d;", int64(acc.GetAccountNumber())-e.AccBase)))
+		}
+	}
+	return hex.EncodeToString(h.Sum(nil))[:16]
+}
